@@ -33,6 +33,8 @@ type Executor struct {
 	Store  *world.Store
 	// RootOverride, if set, supplies root field values instead of Store.Roots (subscription events)
 	RootOverride map[string]interface{}
+	// Meta, if set, answers the introspection root fields (__schema, __type); key is the response key
+	Meta func(field *ast.Field, subs ast.SelectionSet, vars map[string]interface{}) interface{}
 }
 
 // Parse parses and validates a document against the executor's schema.
@@ -192,6 +194,14 @@ func (c *execCtx) executeSelectionSet(obj *object, ss ast.SelectionSet) (map[str
 			result[g.key] = obj.typ
 			continue
 		}
+		var subs ast.SelectionSet
+		for _, gf := range g.fields {
+			subs = append(subs, gf.SelectionSet...)
+		}
+		if obj.root && c.e.Meta != nil && (f.Name == "__schema" || f.Name == "__type") {
+			result[g.key] = c.e.Meta(f, subs, c.vars)
+			continue
+		}
 		var fd *ast.FieldDefinition
 		if def != nil {
 			fd = def.Fields.ForName(f.Name)
@@ -203,10 +213,6 @@ func (c *execCtx) executeSelectionSet(obj *object, ss ast.SelectionSet) (map[str
 		c.res.Touched[obj.typ+"."+f.Name]++
 		c.res.TouchedArgs[obj.typ+"."+f.Name+"("+argsKey(f.ArgumentMap(c.vars))+")"]++
 		raw := c.resolve(obj, f, fd)
-		var subs ast.SelectionSet
-		for _, gf := range g.fields {
-			subs = append(subs, gf.SelectionSet...)
-		}
 		v, ok := c.complete(fd.Type, raw, subs, obj.typ+"."+f.Name)
 		if !ok {
 			if fd.Type.NonNull {
@@ -223,24 +229,24 @@ func argsKey(m map[string]interface{}) string {
 	if len(m) == 0 {
 		return ""
 	}
-	b, _ := json.Marshal(fixNilLists(m))
+	b, _ := json.Marshal(FixNilLists(m))
 	return string(b)
 }
 
-// fixNilLists: gqlparser coerces an empty list literal ([]) to a nil slice, which would be encoded as null;
+// FixNilLists: gqlparser coerces an empty list literal ([]) to a nil slice, which would be encoded as null;
 // an empty list and null are different argument values
-func fixNilLists(v interface{}) interface{} {
+func FixNilLists(v interface{}) interface{} {
 	switch x := v.(type) {
 	case map[string]interface{}:
 		out := make(map[string]interface{}, len(x))
 		for k, vv := range x {
-			out[k] = fixNilLists(vv)
+			out[k] = FixNilLists(vv)
 		}
 		return out
 	case []interface{}:
 		out := make([]interface{}, len(x))
 		for i, vv := range x {
-			out[i] = fixNilLists(vv)
+			out[i] = FixNilLists(vv)
 		}
 		return out
 	}
